@@ -56,6 +56,11 @@ fn distance(d: &DamerauLevenshtein, a: &[char], ca: &[char], b: &[char], cb: &[c
 /// distance is a function of the two words and their classes; the flag must not matter.
 fn distance_fin(d: &DamerauLevenshtein, a: &[char], ca: &[char], b: &[char], cb: &[char], fa: bool, fb: bool) -> f64 {
     let ta = word_text(a, ca).fin(fa);
+    if a == b && ca == cb && fa == fb && !a.is_empty() {
+        // aliasing is legal: the same word of the same text on both sides
+        let v = ta.view(0);
+        return d.distance(&v, &v);
+    }
     let tb = word_text(b, cb).fin(fb);
     d.distance(&ta.view(0), &tb.view(0))
 }
@@ -395,6 +400,46 @@ pub fn step(ex: &mut Exec, ix: usize, op: &Op) {
                     Ok(f) if f.to_bits() == ab.to_bits() => {}
                     Ok(f) => ex.viol("C17", "C17.history", ix, "", obs, format!("{:?} from a fresh instance", f)),
                     Err(p) => ex.viol("C17", "C17.reference_panic", ix, &p.loc, obs, p.render()),
+                }
+            }
+        }
+        Op::JBurst { t, r, q, fin, n } => {
+            if ex.thread(*t).is_none() {
+                return;
+            }
+            ex.out.executed += 1;
+            let (r1, q1, fin1, n1) = (r.clone(), q.clone(), *fin, *n);
+            let res = ex.thread(*t).unwrap().run(move || {
+                let lang = Lang::new();
+                let rt = lib::tokenization::tokenize_record(&r1, &lang);
+                let qt = lib::tokenize_query(&q1, &lang).fin(fin1);
+                if rt.words.is_empty() || qt.words.is_empty() {
+                    return (true, None);
+                }
+                let (rw, qw) = (rt.view(0), qt.view(0));
+                let first = lib::verif::jaccard_check(&rw, &qw);
+                let mut odd = None;
+                for k in 1..n1 {
+                    if lib::verif::jaccard_check(&rw, &qw) != first && odd.is_none() {
+                        odd = Some(k);
+                    }
+                }
+                (first, odd)
+            });
+            match res {
+                Ok((first, odd)) => {
+                    ex.rec(ix, op, &format!("{} x{}", first, n));
+                    if ex.on_prop("C17") {
+                        ex.out.evals += 1;
+                        ex.out.nontrivial = true;
+                        if let Some(k) = odd {
+                            ex.viol("C17", "C17.prefilter_history", ix, "", format!("repetition {} of the same pre-filter call gives {}", k, !first), format!("{} as the first time", first));
+                        }
+                    }
+                }
+                Err(p) => {
+                    ex.rec(ix, op, &p.render());
+                    ex.panicked(ix, &p);
                 }
             }
         }
